@@ -144,7 +144,7 @@ theorem pblk_sink (cfg : Cfg) :
   | q :: qs, nd, ps, t, xs, pid, hsk, hnp, hl, hcap, hsafe => by
     have hcap1 : xs.length < cfg.leafCap := by simp at hcap; omega
     have hone := sinkOneA_eq cfg ps t q xs pid hl hcap1
-    obtain ⟨ba, hpid, _⟩ := pblk_alloc (p0 := p0) (live := live) (lo := lo) (allowed := allowed) (covered := covered) ps hsk hnp
+    obtain ⟨ba, hpid, _⟩ := pblk_alloc_eq (p0 := p0) (live := live) (lo := lo) (allowed := allowed) (covered := covered) ps hsk hnp
     have bb := pblk_write (p0 := p0) (live := live) (lo := lo) (allowed := allowed) (covered := covered) ba.sk ba.np
       (.blob t.key q) (allocA ps).2.2 trivial
     have hleaf : CEff p0 live allowed covered lo (nd + 1) (.leaf t.key 0 ((insNat q xs).map some) false pid) := by
